@@ -93,6 +93,10 @@ structure St where
   resumedIds : List Nat := []
   /-- attribute ids received so far in the running chunk sequence of (who, sid) -/
   chunks : List (Nat × Nat × List Nat) := []
+  /-- real instant at which the report in flight (subscription id) was begun -/
+  begun : Option (Nat × Nat) := none
+  /-- per subscription id: real instant at which its last successful report was begun -/
+  lastOk : List (Nat × Nat) := []
   /-- duration of the quiesce that immediately precedes -/
   quiesced : Option Nat := none
   stop : Bool := false
@@ -152,18 +156,25 @@ def overdue (st : St) (t : Nat) : St × Option String :=
     ({ st with expects := st.expects.filter (fun x => !(x.who == e.who && x.sid == e.sid)) },
      some s!"subscriber {e.who} got no report for subscription {e.sid} within the maximum interval of {e.maxInt} s: the last one at {e.since}, nothing until {t} although the path was clean")
 
+/-- the instant the maximum interval of a subscription is measured from: its last successful report,
+for a resumed subscription that was not primed yet the restart (its last success cannot be later) -/
+def sinceOf (st : St) (e : Ent) : Option Nat :=
+  match e.ra with
+  | some x => some x
+  | none => if st.resumedIds.contains e.id then some st.upAt else none
+
 /-- clauses (d3) and (e2) at instant `t` -/
 def lingering (st : St) (t : Nat) : Option String :=
   first ((allEnts st).map fun e =>
-    match e.ra with
+    match sinceOf st e with
     | some x =>
       if decide (x + e.max * 1000 + lingerBound e < t) then
-        some s!"subscription {e.id} is still in the table at {t}, its last successful report was begun at {x} and its maximum interval is {e.max} s"
+        if e.ra.isSome then
+          some s!"subscription {e.id} is still in the table at {t}, its last successful report was begun at {x} and its maximum interval is {e.max} s"
+        else
+          some s!"resumed subscription {e.id} was never primed and is still in the table {t - x} ms after the restart (maximum interval {e.max} s): it does not expire"
       else none
-    | none =>
-      if st.resumedIds.contains e.id && decide (st.upAt + e.max * 1000 + lingerBound e < t) then
-        some s!"resumed subscription {e.id} was never primed and is still in the table {t - st.upAt} ms after the restart: it never expires"
-      else none)
+    | none => none)
 
 def setExpect (st : St) (who sid t maxInt : Nat) : St :=
   let rest := st.expects.filter (fun x => !(x.who == who && x.sid == sid))
@@ -194,20 +205,50 @@ def onTab (st : St) (t : Nat) (ents : List Ent) (rep : Option Ent) : St × Optio
         let minI := match o.ra with
           | some x => if decide (p < x + o.min * 1000) then some s!"a report to subscription {n.id} was begun at {p}, less than the minimum interval of {o.min} s after the previous successful one at {x}" else none
           | none => none
-        let exp := match o.ra with
-          | some x => if decide (x + o.max * 1000 ≤ p) then some s!"a report to subscription {n.id} was begun at {p}, not before last success {x} + maximum interval {o.max} s" else none
+        let exp := match sinceOf st o with
+          | some x => if decide (x + o.max * 1000 ≤ p) then some s!"a report to subscription {n.id} was stamped {p}, not before last success {x} + maximum interval {o.max} s" else none
           | none => none
         let sweep := first (ents.map fun f =>
           if f.id == n.id then none else
-          match f.ra with
+          match sinceOf st f with
           | some y => if decide (y + f.max * 1000 ≤ p) then some s!"subscription {f.id} (last success {y}, maximum interval {f.max} s) survived the reporter pass at {p}" else none
           | none => none)
         first [gate, minI, exp, sweep]
-  let st1 := { st with tab := ents, reporting := rep }
+  -- a successful commit makes the real begin instant of that report the reference for the next one
+  let okIds := ents.filterMap fun n =>
+    match old.find? (fun o => o.id == n.id) with
+    | some o => if n.ra.isSome && (n.ra != o.ra) then some n.id else none
+    | none => none
+  let lastOk1 := match st.begun with
+    | some (bid, bt) => if okIds.contains bid then (bid, bt) :: st.lastOk.filter (fun x => x.1 != bid) else st.lastOk
+    | none => st.lastOk
+  -- a report is begun: the in-flight snapshot appears or changes
+  let isBegin : Bool := match rep, st.reporting with
+    | some e, some o => !(e.id == o.id && e.ra == o.ra && e.rt == o.rt && e.fc == o.fc)
+    | some _, none => true
+    | none, _ => false
+  let beginV : Option String := match rep with
+    | some e =>
+      if !isBegin then none else
+      let late := match sinceOf st e with
+        | some x => if decide (x + e.max * 1000 ≤ t) then some s!"a report to subscription {e.id} is begun at {t}, not before last success {x} + maximum interval {e.max} s" else none
+        | none => none
+      let gate := match e.rt with
+        | some g => if decide (t < g) then some s!"a report to subscription {e.id} is begun at {t}, before its retry gate {g}" else none
+        | none => none
+      let often := match lastOk1.find? (fun x => x.1 == e.id) with
+        | some (_, tb) => if decide (t < tb + e.min * 1000) then some s!"a report to subscription {e.id} is begun at {t}, less than the minimum interval of {e.min} s after the previous delivered report was begun at {tb}" else none
+        | none => none
+      first [late, gate, often]
+    | none => none
+  let begun1 := match rep with
+    | some e => if isBegin then some (e.id, t) else st.begun
+    | none => none
+  let st1 := { st with tab := ents, reporting := rep, begun := begun1, lastOk := lastOk1 }
   -- expectations of subscriptions the device no longer has end
   let live := (ents ++ rep.toList)
   let st2 := { st1 with expects := st1.expects.filter (fun e => live.any (fun x => x.id == e.sid && x.peer == 100 + e.who)) }
-  (st2, first (commits ++ [lingering st2 t]))
+  (st2, first (commits ++ [beginV, lingering st2 t]))
 
 def addChunk (st : St) (who sid : Nat) (attrs : List Nat) : St × List Nat :=
   let cur := (st.chunks.find? (fun c => c.1 == who && c.2.1 == sid)).map (fun c => c.2.2) |>.getD []
@@ -344,7 +385,7 @@ def stepOp (st : St) (ws : List String) (out : String) : St × Option String :=
     (cancelWho st1 w, none)
   | "down" :: _ =>
     let st1 := recomputeClean { st with up := false, clean := [none, none] }
-    ({ st1 with expects := [], tab := [], reporting := none, resumed := [], resumedIds := [], chunks := [] }, none)
+    ({ st1 with expects := [], tab := [], reporting := none, resumed := [], resumedIds := [], chunks := [], begun := none, lastOk := [] }, none)
   | ["up"] =>
     if st.up then (st, none) else
     let st1 := recomputeClean { st with up := true, upAt := st.now }
